@@ -138,7 +138,14 @@ pub fn print_types<W: std::fmt::Write>(w: &mut W, ast: &Ast, derive: &str) -> Re
 
                 writeln!(w, "{}", derive)?;
                 write!(w, "pub struct {}", v.alias.unwrap_array().as_str())?;
-                if ast.generics().contains(v.target.as_str()) || v.target.is_opaque() {
+                // Only a named type can be generic - a primitive is never looked
+                // up by its Rust spelling.
+                let target_is_generic = matches!(
+                    &v.target,
+                    BasicType::Ident(i) if ast.generics().contains(i.as_ref())
+                );
+
+                if target_is_generic || v.target.is_opaque() {
                     write!(
                         w,
                         "<{}>",
@@ -153,7 +160,7 @@ pub fn print_types<W: std::fmt::Write>(w: &mut W, ast: &Ast, derive: &str) -> Re
                     continue;
                 }
 
-                if ast.generics().contains(v.target.as_str()) {
+                if target_is_generic {
                     write!(w, " (pub ")?;
                     target.write_with_bounds(w, Some(&["T"]))?;
                     writeln!(w, ");")?;
